@@ -5,10 +5,12 @@ VERIF = os.path.dirname(os.path.dirname(os.path.abspath(__file__)))
 sys.path.insert(0, os.path.join(VERIF, "lib"))
 props = [json.loads(l)["id"] for l in open(os.path.join(VERIF, "properties.jsonl"))]
 checks, na = [], []
+import subprocess
+tracked = set(subprocess.run(["git", "-C", VERIF, "ls-files", "--cached", "checks"], capture_output=True, text=True).stdout.split())
 NA_REASONS = json.load(open(os.path.join(VERIF, "tools", "not_applicable.json"))) if os.path.exists(os.path.join(VERIF, "tools", "not_applicable.json")) else {}
 for p in props:
     f = os.path.join(VERIF, "checks", p + ".py")
-    if not os.path.exists(f) or p in NA_REASONS:
+    if not os.path.exists(f) or ("checks/%s.py" % p) not in tracked or p in NA_REASONS:
         na.append({"property_id": p, "reason": NA_REASONS.get(p, "check not built yet in this round (no claim made); see DESIGN.md section 4 for the planned model and theorems")})
         continue
     spec = importlib.util.spec_from_file_location("m", f); m = importlib.util.module_from_spec(spec); spec.loader.exec_module(m)
